@@ -8,7 +8,9 @@
 (***************************************************************************)
 EXTENDS Naturals, Sequences, FiniteSets, TLC, Json
 
-Feeders == {"sumdb", "tiles", "pixel", "rekor", "serverless"}
+\* "rekor-shards": three Rekor feeders of ONE instance (as the shipped configuration has them) run their cycles at the same time against the same
+\* answers: whatever they share (the instance's log-info request, say) must not let one shard's failure keep the others waiting
+Feeders == {"sumdb", "tiles", "pixel", "rekor", "serverless", "rekor-shards"}
 WitnessStates == {"none", "held"}
 \* what the log's checkpoint endpoint answers
 CpClasses == {"valid", "size0", "size2^62", "size2^62+", "size2^63", "size2^64-1", "hash0", "hash5", "hash33", "badsig", "truncated", "oversized", "random", "status404", "status500", "empty",
